@@ -81,6 +81,8 @@ type c01Scenario struct {
 	// history: the process that replays the window is itself a choice: before every window block the explorer either lets the
 	// running node continue or replaces it by a freshly started one ("never on the process that computed it")
 	history bool
+	// fetchFault: the first request for the first of the concurrently fetched entries fails once (transport error)
+	fetchFault bool
 }
 
 func c01Scenarios(thorough bool) []c01Scenario {
@@ -242,14 +244,22 @@ func c01Scenarios(thorough bool) []c01Scenario {
 			}})
 	}
 	// concurrent entry fetches
-	for _, k := range []int{3, 4} {
+	for _, k := range []int{3, 4, 13} {
 		if k == 4 && !thorough {
 			continue
+		}
+		fault := false
+		if k == 13 {
+			k, fault = 3, true // three entries again, one transient fetch failure: completion order x retry
 		}
 		k := k
 		era := drive.EraStage(drive.StPIP10)
 		era.Name = "pip10"
-		out = append(out, c01Scenario{name: fmt.Sprintf("concurrent-fetch/%d-entries", k), era: era, fetchK: k,
+		nm := fmt.Sprintf("concurrent-fetch/%d-entries", k)
+		if fault {
+			nm += "+one-transient-fetch-failure"
+		}
+		out = append(out, c01Scenario{name: nm, era: era, fetchK: k, fetchFault: fault,
 			prefix: func(b *drive.Builder) { FundStd(b); b.Add(g(drive.BlockSpec{})) },
 			window: func(b *drive.Builder) {
 				var es []fake.Entry
@@ -303,6 +313,8 @@ func c01Execute(w *World, sc c01Scenario, choices []int) *c01Exec {
 	}
 	defer func() { verifrt.Hook = nil }()
 	d := run.Open(nil)
+	var onReq func(fake.Req) fake.FaultKind
+	faultFired := false
 	if sc.fetchK > 0 {
 		// completion order of the concurrent fetches of the first window block's transaction entries
 		_, _, txh, _, _ := run.B.Chain.Hashes(w.B.Chain.Tip() + 1)
@@ -315,12 +327,28 @@ func c01Execute(w *World, sc c01Scenario, choices []int) *c01Exec {
 		var gm sync.Mutex
 		cond := sync.NewCond(&gm)
 		next := 0
+		if sc.fetchFault {
+			first := fmt.Sprintf("%x", txh[0][:])
+			onReq = func(rq fake.Req) fake.FaultKind {
+				if !faultFired && rq.Key == first {
+					faultFired = true
+					return fake.FaultTransport
+				}
+				return fake.NoFault
+			}
+		}
+		gated := map[string]bool{}
 		d.Fake.Gate = func(r fake.Req) {
 			rank, ok := pos[r.Key]
 			if !ok {
 				return
 			}
 			gm.Lock()
+			if gated[r.Key] {
+				gm.Unlock()
+				return // a later attempt of the block: only the first round is ordered
+			}
+			gated[r.Key] = true
 			for rank != next {
 				cond.Wait()
 			}
@@ -353,7 +381,10 @@ func c01Execute(w *World, sc c01Scenario, choices []int) *c01Exec {
 			}
 		}
 	} else {
-		ex.out = run.Sync()
+		ex.out = run.D.SyncTo(run.B.Chain.Tip(), drive.SyncOpts{OnRequest: onReq, FaultPending: func() bool { return sc.fetchFault && !faultFired }})
+		if sc.fetchFault && !faultFired {
+			panic("harness: C01 fetch-fault scenario: the fault never fired")
+		}
 	}
 	ex.dump = run.Dump(canon.Ledger)
 	ex.hash = ex.dump.Hash()
